@@ -275,6 +275,16 @@ def build_b3sum():
     return _built["b3sum"]
 
 
+def build_b3sum_binary_only():
+    """fallback when the function-level driver (which names private functions of main.rs) no longer compiles: the b3sum binary
+    alone, so that the process-level stages can still look for a failing run"""
+    if "b3sum_bin" in _built:
+        return _built["b3sum_bin"]
+    rc, out = run(["cargo", "build", "--release", "--offline", "--bin", "b3sum"], cwd=B3SUM_DIR, timeout=3600)
+    _built["b3sum_bin"] = (rc == 0, os.path.join(B3SUM_DIR, "target", "release", "b3sum"), out)
+    return _built["b3sum_bin"]
+
+
 def build_lean_driver():
     if "lean" in _built:
         return _built["lean"]
